@@ -52,6 +52,8 @@ type World struct {
 	sinkAliases map[ssa.Value][]ssa.Value
 	// mayScope: callers considered when mayCanons resolves a helper parameter (nil: all)
 	mayScope map[*ssa.Function]bool
+	// successReturnsOnly: returnedValues skips returns whose error result is certainly non-nil
+	successReturnsOnly bool
 	// argVal: the argument value bound to a helper parameter, by the plain canonical
 	// form the parameter prints as while the helper is expanded
 	argVal          map[string]ssa.Value
